@@ -44,9 +44,14 @@ type c15Req struct {
 	C bool `long:"cc" short:"c" required:"true"`
 }
 
-func c15Key(v *V) string {
-	k := v.String(1)
-	v.Assume(k[0] >= 'a' && k[0] <= 'z')
+func c15Key(v *V) string { return c15KeyN(v, 1) }
+
+// c15KeyN: a key of n lower-case letters or digits
+func c15KeyN(v *V, n int) string {
+	k := v.String(n)
+	for i := 0; i < n; i++ {
+		v.Assume((k[i] >= 'a' && k[i] <= 'z') || (k[i] >= '0' && k[i] <= '9'))
+	}
 	return k
 }
 
@@ -154,8 +159,15 @@ func H_C15_twice(v *V) {
 	n := v.Shape("n")
 	keys := make([]string, n)
 	vals := make([]string, n)
+	lk := v.Shape("lk")
 	for i := range keys {
-		keys[i] = c15Key(v)
+		// with lk=2 the keys after the first have two characters (so that two
+		// keys may denote the same number, e.g. 1 and 01)
+		if lk == 2 && i > 0 {
+			keys[i] = c15KeyN(v, 2)
+		} else {
+			keys[i] = c15Key(v)
+		}
 		vals[i] = c15Key(v)
 		for j := 0; j < i; j++ {
 			v.Assume(keys[i] != keys[j])
